@@ -347,9 +347,9 @@ class _VariationalStrategy(Module, ABC):
             self.variational_params_initialized.fill_(1)
 
         # Ensure inducing_points and x are the same size
+        # (always: an override may do more than broadcasting, e.g. insert the mean / variance axis into x)
         inducing_points = self.inducing_points
-        if inducing_points.shape[:-2] != x.shape[:-2]:
-            x, inducing_points = self._expand_inputs(x, inducing_points)
+        x, inducing_points = self._expand_inputs(x, inducing_points)
 
         # Get p(u)/q(u)
         variational_dist_u = self.variational_distribution
